@@ -79,7 +79,8 @@ def execute(task, package_dir):
         summary["draws"] = reference.draws
         summary["final_time"] = reference.final_time
         summary["kinds"] = dict(reference.kinds)
-        if reference.status == "invalid":
+        if reference.status in ("invalid", "stopped_by_shortage_error"):
+            # (an under-provisioned scenario ends with the activator's own error, in the resumed process as well)
             summary["status"] = "invalid"
             return summary
         if reference.status in ("harness_error",):
